@@ -37,6 +37,9 @@ CONSTANTS
     MaxCrash,    \* bound on the number of stops
     MaxTries,    \* bound on deliveries of one snapshot that end without applying it
     Known,       \* set of known-finding ids tolerated by the invariants
+    AcceptRepair,\* TRUE: loadState completes a node acceptance that was interrupted between the start of round 0
+                 \*   and of round 1 (the code's design since the repair of finding C22-1). FALSE: SetupNode aborts
+                 \*   on a head round 0 (the design before; used only as non-vacuity witness).
     LockedMarker \* TRUE: the consensus record of a consensus snapshot is written inside Node.TopoWrite, under
                  \*   the lock that covers the snapshot write (the code's design). FALSE describes the design
                  \*   before the repair of finding C21-1 (record written after the lock was released); it is
@@ -108,7 +111,7 @@ Guard(s, p, wroteNow) ==
            [] p = 3 -> FALSE
            [] p = 4 -> s \notin body
            [] p = 5 -> s \notin body
-           [] p = 6 -> head[c] = -1
+           [] p = 6 -> head[c] = -1 \/ (AcceptRepair /\ head[c] = 0 /\ ~InTopo(s))   \* idempotent when repeated after a stop
            [] p = 7 -> head[c] = 0 /\ ~InTopo(s)
            [] p = 8 -> LockedMarker /\ wroteNow /\ topoLock = s
            [] p = 9 -> head[c] = 0 /\ InTopo(s)
@@ -182,7 +185,9 @@ Step(s) ==
         /\ nodeop' = IF n = "AddNodeOperation" THEN nodeop \cup {s} ELSE nodeop
         /\ lock'   = IF n \in {"LockUTXOs", "LockDepositInput", "LockMintInput"} THEN lock \cup {s} ELSE lock
         /\ body'   = IF n = "WriteTransaction" THEN body \cup {s} ELSE body
-        /\ head'   = IF n = "StartNewRound" THEN [head EXCEPT ![c] = @ + 1] ELSE head
+        /\ head'   = IF n = "StartNewRound"
+                     THEN [head EXCEPT ![c] = IF Def[s].kind = "accept" /\ p = 6 THEN 0 ELSE @ + 1]
+                     ELSE head
         /\ refsOK' = CASE n = "StartNewRound" /\ Def[s].kind # "accept" -> [refsOK EXCEPT ![c] = ExtKnown(s)]
                         [] n = "UpdateEmptyHeadRound" -> [refsOK EXCEPT ![c] = TRUE]
                         [] OTHER -> refsOK
@@ -212,14 +217,19 @@ Crash ==
     /\ UNCHANGED <<ghost, nodeop, lock, body, head, refsOK, topo, marker, tries, complete, broken>>
 
 (* SetupNode: LastSnapshot() -> reloadConsensusState if it holds one consensus
-   transaction; then every chain is loaded: head round 0 aborts (loadState
-   reads round number - 1).                                                  *)
+   transaction; then every chain is loaded. A chain whose head round is 0 was
+   being accepted when the process stopped: with the accept snapshot stored,
+   loadState starts round 1 (the last step of finalizeNodeAcceptSnapshot);
+   without it the chain stays without state and the snapshot is finalized
+   again. Before that repair loadState read round number - 1 and aborted.    *)
+AcceptedAtZero(c) == head[c] = 0 /\ \E s \in Snap : Def[s].kind = "accept" /\ Def[s].chain = c /\ InTopo(s)
 Restart ==
     /\ ~up
     /\ up' = TRUE /\ fresh' = TRUE
     /\ marker' = IF Len(topo) > 0 /\ Consensus(topo[Len(topo)]) THEN topo[Len(topo)] ELSE marker
-    /\ broken' = \E c \in Chain : head[c] = 0
-    /\ UNCHANGED <<ghost, nodeop, lock, body, head, refsOK, topo, pc, abort, tries, topoLock, complete, crashes, startedInTopo>>
+    /\ broken' = IF AcceptRepair THEN FALSE ELSE \E c \in Chain : head[c] = 0
+    /\ head' = IF AcceptRepair THEN [c \in Chain |-> IF AcceptedAtZero(c) THEN 1 ELSE head[c]] ELSE head
+    /\ UNCHANGED <<ghost, nodeop, lock, body, refsOK, topo, pc, abort, tries, topoLock, complete, crashes, startedInTopo>>
 
 Next == (\E s \in Snap : Step(s)) \/ Crash \/ Restart
 
